@@ -54,6 +54,115 @@ def history_excerpt(path, around=None, n=40):
     return ls[lo:lo + n]
 
 
+def history_stage(rep, proof_ok, sc, lib, prop, drv, harness_src, gen, tier, seed, replay=None, rule="",
+                  nontrivial=None, search_rounds=2, proof_log="", prop_file=""):
+    """runs the scenarios of one property on the scratch build and files violations in rep; returns coverage dict"""
+    okd, drv_exe, derr = vlib.build_driver(drv)
+    if not okd:
+        rep.violation("driver-build.txt", "model driver does not build:\n" + derr, found_input=False)
+        return {"evaluations": 0}
+    hexe = os.path.join(sc, "harness_" + drv)
+    if not os.path.exists(hexe):
+        okh, herr = vlib.build_harness(sc, os.path.join(vlib.HARNESS, harness_src), hexe, lib=lib, san=False, opt="-O1")
+        if not okh:
+            rep.violation("harness-build.txt", "harness %s does not compile against /repo's working tree:\n%s" % (harness_src, herr), found_input=False)
+            return {"evaluations": 0}
+    if replay:
+        payload = json.load(open(replay)) if isinstance(replay, str) else replay
+        scenarios, stats = payload.get("scenarios", []), {"replay": True}
+    else:
+        rng = random.Random(seed)
+        cdir = os.path.join(vlib.VERIF, "corpus", prop)
+        corpus = [open(os.path.join(cdir, f)).read() for f in sorted(os.listdir(cdir))] if os.path.isdir(cdir) else []
+        scenarios, stats = gen(rng, tier)
+        scenarios = corpus + scenarios
+        stats["corpus"] = len(corpus)
+    res = run_scenarios(hexe, drv_exe, scenarios, sc, tag="s_" + prop)
+    nev = 0
+    for r in res:
+        if r["model_line"].startswith("OK"):
+            try:
+                nev += int(r["model_line"].split("events=")[1].split()[0])
+            except Exception:
+                pass
+    by = {}
+    for r in res:
+        by.setdefault(r["status"], []).append(r)
+    monfail = by.get("MONFAIL", []) + by.get("CRASH", [])
+    mism = by.get("MISMATCH", []) + by.get("DRIVER", [])
+    searched = 0
+    if (mism or not proof_ok) and not monfail and not replay:
+        kinds = set()
+        for r in mism:
+            for w in r["model_line"].split():
+                if w.startswith("event="):
+                    kinds.add(KIND_CODES.get(w[6:], -1))
+        kinds.discard(-1)
+        for rnd in range(search_rounds):
+            for k in (sorted(kinds) or [3]):
+                extra, _ = gen(random.Random(seed * 1000 + rnd), tier)
+                scs = [r["scenario"] for r in mism][:10] + extra[:max(10, len(extra) // 2)]
+                r2 = run_scenarios(hexe, drv_exe, scs, sc, tag="search%d_%d_%s" % (rnd, k, prop),
+                                   env={"VH_TARGET_KIND": str(k), "VH_TARGET_US": "300"})
+                searched += len(scs)
+                monfail += [r for r in r2 if r["status"] in ("MONFAIL", "CRASH")]
+            if monfail:
+                break
+    cov = {"evaluations": len(scenarios), "traces_validated_against_impl": len(by.get("OK", [])),
+           "events_replayed": nev, "distinct_nontrivial": len(set(s for s in scenarios if (nontrivial(s) if nontrivial else True))),
+           "rule": rule, "samples": scenarios[:2], "generator_stats": stats,
+           "history_mismatches": len(mism), "monitor_failures": len(monfail), "search_runs": searched,
+           "disagreements_checked": len(scenarios)}
+    if monfail:
+        r = monfail[0]
+        rep.violation("monitor-%d.json" % seed,
+                      {"kind": "history", "property": prop, "seed": seed, "scenarios": [r["scenario"]],
+                       "monitor": r["mon_line"], "model": r["model_line"],
+                       "history": history_excerpt(r["history_path"], n=400),
+                       "explanation": "a property monitor failed on a real execution of this scenario (history attached)"},
+                      found_input=True, text=r["mon_line"] + " | " + r["model_line"])
+    elif mism:
+        r = mism[0]
+        at = None
+        for w in r["model_line"].split():
+            if w.startswith("line="):
+                at = int(w[5:])
+        rep.violation("conformance-%d.json" % seed,
+                      {"kind": "history", "property": prop, "seed": seed, "scenarios": [r["scenario"]],
+                       "broken": "history conformance %s <-> LTS %s: the implementation performed an atomic action the model does not allow" % (harness_src, drv),
+                       "first_disagreement": r["model_line"], "history_around": history_excerpt(r["history_path"], at),
+                       "mismatching_scenarios": len(mism), "search_runs_without_monitor_failure": searched},
+                      found_input=False, text=r["model_line"])
+    elif not proof_ok:
+        rep.violation("proof-%d.txt" % seed, "proof obligation(s) of %s no longer check:\n%s" % (prop_file, proof_log[-3000:]), found_input=False)
+    return cov
+
+
+def run_sched_property(prop, prop_files, targets, name_re, gen, tier, seed, replay=None, rule="", extra_assumptions=()):
+    """properties decided on the scheduler LTS (Conc/Sched.v): theorems from the shared Properties_Sched*.v files
+    (filtered by name) + history conformance of harness/h_sched.c scenarios"""
+    rep = vlib.Report(prop, tier, seed)
+    rep.assumptions += list(extra_assumptions) + [
+        "recorded order = real order of the logged atomic actions (each logged atomic operation and its record are one "
+        "step under the trace lock; x86-TSO)",
+        "sequentially consistent LTS; acquire/release annotations of the C code are not checked",
+        "scheduler LTS Conc/Sched.v: streams are not modelled (a unit has one structural place); user-defined pools, stacked "
+        "schedulers and scheduler replacement are outside the replayed scenarios",
+        "idle-loop compression of the trace: a repeated identical lock-free read by an idle scheduler is recorded once"]
+    proof = vlib.proof_stage_multi(prop_files, targets + ["Extract_Sched.vo"], name_re)
+    if not proof["ok"]:
+        vlib.log("proof stage failed:\n" + proof["log"][-3000:])
+    with vlib.Scratch(prop) as sc:
+        vlib.copy_repo_src(sc)
+        okl, lib, lerr = vlib.get_lib(sc)
+        if not okl:
+            rep.violation("repo-build.txt", "the library does not compile with -D%s:\n%s" % (vlib.GUARD, lerr), found_input=False)
+            return rep.finish(proof, {"evaluations": 0})
+        cov = history_stage(rep, proof["ok"], sc, lib, prop, "sched", "h_sched.c", gen, tier, seed, replay=replay, rule=rule,
+                            proof_log=proof["log"], prop_file=",".join(prop_files))
+    return rep.finish(proof, cov)
+
+
 def run_history_property(prop, prop_file, targets, drv, harness_src, gen, tier, seed, replay=None,
                          rule="", extra_assumptions=(), nontrivial=None, search_rounds=2, stage_extra=None):
     """gen(rng, tier) -> (list of scenario texts, stats)"""
